@@ -78,6 +78,16 @@ def sql_probe(sp, dialect):
     out["alias_resolves"] = (len(c) == 1 and str(c[0][0]) == "<default>.src.c")
     _, s, t, c = run(f"insert into tgt with {sp} as (select c from src) select c from {sp}", dialect)
     out["cte_local"] = ([str(x) for x in s] == ["<default>.src"])
+    # a qualifier with several parts (schema.table.column) denotes the FROM item spelled the same way
+    ok = True
+    for frm in (f"sch.{sp}", f"{sp}.tab", f"{sp}.{sp}"):
+        for more in ("", ", other"):
+            _, s, t, c = run(f"insert into tgt select {frm}.c from {frm}{more}", dialect)
+            src = [x for x in s if x.raw_name != "other"]
+            ok = ok and len(c) == 1 and len(src) == 1 and c[0][0].parent is not None and str(c[0][0].parent) == str(src[0])
+    _, s, t, c = run(f"create table {sp}.{sp} as select p as c from raw; insert into fin select {sp}.{sp}.c from {sp}.{sp}", dialect)
+    ok = ok and any(len(p) == 3 and str(p[0]) == "<default>.raw.p" and str(p[-1]) == "<default>.fin.c" for p in c)
+    out["dotted_qualifier_resolves"] = ok
     _, s, t, c = run(f"insert into mid select {sp} from src; insert into fin select {sp} from mid", dialect)
     out["chain_found"] = any(len(p) == 3 and str(p[0]).startswith("<default>.src.") and str(p[-1]).startswith("<default>.fin.") for p in c)
     return out
@@ -259,13 +269,13 @@ def main() -> int:
         m = mod[k]
         norm = m["norm"]
         tie_ok = all(o[p] == m[p] for p in POSITIONS) and o["chain_found"] == (m["chain_found"] == "1")
-        spec_ok = all(o[p] == norm for p in POSITIONS) and o["chain_found"] and o["qualifier_resolves"] and o["alias_resolves"] and o["cte_local"]
+        spec_ok = all(o[p] == norm for p in POSITIONS) and o["chain_found"] and o["qualifier_resolves"] and o["alias_resolves"] and o["cte_local"] and o["dotted_qualifier_resolves"]
         if spec_ok:
             continue
         # the property fails on this spelling: is it exactly the recorded defect (model = implementation)?
         quoted_upper = sp[0] in "\"`[" and any(ch.isupper() for ch in sp)
         wrong = sorted(p for p in POSITIONS if o[p] != norm) + ([] if o["chain_found"] else ["chain_found"]) + \
-            [x for x in ("qualifier_resolves", "alias_resolves", "cte_local") if not o[x]]
+            [x for x in ("qualifier_resolves", "alias_resolves", "cte_local", "dotted_qualifier_resolves") if not o[x]]
         recorded = {"PSchema": "K-C16-2", "PColSource": "K-C16-1", "chain_found": "K-C16-1"}
         if tie_ok and quoted_upper and all(w in recorded for w in wrong):
             for w in wrong:
